@@ -62,7 +62,11 @@ def rand_float(rng) -> float:
 
 # ---- strings of the C01 value domain, drawn per writer quoting class / reader hazard -------------
 STR_CLASSES = ["single", "multi", "path", "struct", "backslash", "nested_sq", "nested_dq", "nonascii", "empty",
-               "typed", "punct", "glued"]
+               "typed", "punct", "glued", "nearnum"]
+# strings that Python's int() / float() / bool conversions would accept or that look numeric, but which the documented
+# number grammar does not: they are strings
+NEARNUM = ["1_0", "2024_01", "10_20.5", "nan", "NaN", "inf", "-inf", "Infinity", " 12 ", "12 ", " 1.5", "0x10", "1j", "1e", "e5",
+           "--1", "+-2", "1.2.3", "1,5", "yes", "no", "t", "f", "nil", "0b1", "1__0", "_1", "1_"]
 
 
 def dom_string(rng, cls: str | None = None) -> str:
@@ -101,6 +105,8 @@ def dom_string(rng, cls: str | None = None) -> str:
             s = ""
         elif cls == "typed":
             s = rng.choice(["1", "-2", "+3", "1.5", ".5", "1.", "1e5", "2.5E-3", "true", "False", "ON", "off", "None", "NULL", "null", "007", "1e+05"])
+        elif cls == "nearnum":
+            s = rng.choice(NEARNUM)
         elif cls == "punct":
             s = "".join(rng.choice("!%&*+-=?@^|~.#" + LETTERS[:5]) for _ in range(rng.randrange(1, 7)))
         else:  # glued: delimiter glued to words / quotes near the ends
